@@ -217,18 +217,27 @@ def cleanup_scratch() -> None:
 
 def _worker_entry(args: tuple) -> dict:
     modname, shard = args
+    import faulthandler
     import importlib
 
+    # harness watchdog only: a shard that exceeds it dumps its stack and exits; the run is then INCONCLUSIVE (exit 2),
+    # never a violation (termination as a property is decided by event budgets, see C08)
+    limit = int(os.environ.get("VERIF_SHARD_TIMEOUT", "1500"))
+    faulthandler.dump_traceback_later(limit, exit=True)
     try:
         worker_scratch()
         mod = importlib.import_module(modname)
         return {"ok": True, "result": mod.run_shard(shard)}
     except BaseException as e:  # harness error inside a worker
         return {"ok": False, "error": f"{type(e).__name__}: {e}\n{traceback.format_exc()}", "shard": shard}
+    finally:
+        faulthandler.cancel_dump_traceback_later()
 
 
 def run_shards(modname: str, shards: list[dict], procs: int = 16) -> tuple[Collector, list[str]]:
     import multiprocessing as mp
+    from concurrent.futures import ProcessPoolExecutor
+    from concurrent.futures.process import BrokenProcessPool
 
     col = Collector()
     errors: list[str] = []
@@ -244,8 +253,17 @@ def run_shards(modname: str, shards: list[dict], procs: int = 16) -> tuple[Colle
                 errors.append(r["error"])
         return col, errors
     ctx = mp.get_context("spawn")
-    with ctx.Pool(procs, maxtasksperchild=None) as pool:
-        for r in pool.imap(_worker_entry, [(modname, sh) for sh in shards]):
+    with ProcessPoolExecutor(max_workers=procs, mp_context=ctx) as ex:
+        futs = [(sh, ex.submit(_worker_entry, (modname, sh))) for sh in shards]
+        for sh, fut in futs:
+            try:
+                r = fut.result()
+            except BrokenProcessPool:
+                errors.append(f"worker died or exceeded the harness watchdog while running shard {sh} (stack dumped on stderr if it was the watchdog)")
+                continue
+            except Exception as e:
+                errors.append(f"shard {sh}: {type(e).__name__}: {e}")
+                continue
             if r["ok"]:
                 col.merge_dict(r["result"])
             else:
